@@ -221,6 +221,20 @@ def run(chk):
         k = r.randint(2, 25)
         cfg = [list(x) for x in r.sample(flat, min(k, len(flat)))]
         configs.append(cfg)
+    # (4) repeated values: the same value twice in a row for every valued option (multi-valued options keep both), A B A, and
+    # the same value through two different options
+    valued = [c[0] for c in singles if len(c[0]) > 1 and c[0][1] not in ("true", "false") and not any(str(a).startswith("-") for a in c[0][1:])]
+    for v in valued:
+        configs.append([list(v), list(v)])
+    rr = chk.rng("repeats")
+    byname = {}
+    for v in valued:
+        byname.setdefault(v[0], []).append(v)
+    for n_, vs in byname.items():
+        if len(vs) >= 2:
+            a, b = rr.sample(vs, 2)
+            configs.append([list(a), list(b), list(a)])
+            configs.append([list(a), list(a), list(b), list(b)])
     chk.count("option_methods_in_table", len(methods))
     chk.count("option_methods_not_covered", len(holes) + len(SKIP))
 
@@ -240,7 +254,8 @@ def run(chk):
         rule="case = one builder configuration (list of Builder method calls recovered from options/mod.rs at run time) applied to a C or C++ "
              "trigger header: b1 -> command_line_flags() -> builder_from_flags (child process) -> flags', plus the real CLI on the printed flags; "
              "non-trivial = the configuration changes the bindings relative to the default. Families: every single option with every "
-             "enumerated/sampled value, pairs of boolean options, random configurations of 2..25 options.",
+             "enumerated/sampled value, pairs of boolean options, random configurations of 2..25 options, every valued option given the same "
+             "value twice in a row / A B A / A A B B.",
         coverage_extra={"methods_without_samples": sorted(set(holes)), "methods_skipped": sorted(SKIP)},
         assumptions=["builder methods are driven through a dispatcher generated from the signatures in options/mod.rs",
                      "methods with process-level side effects (emit_*, time_phases, rustfmt paths, depfile, header set) are exercised by other checks"])
